@@ -3,6 +3,8 @@ import OrdModel.Proofs.IndexFlagsValid
 import OrdModel.Proofs.IndexFlagsNoIns
 import OrdModel.Proofs.IndexFlagsWitness
 import OrdModel.Proofs.IndexLiftDischargeC15
+import OrdModel.Proofs.IndexFlagsRuneView
+import OrdModel.Generated.FirstIndexHeight
 import OrdModel.Index.Valid
 /-
 C15 — optional indexes do not change inscription or rune results.
@@ -20,8 +22,12 @@ results; `SameUpToOptionalIndexes`; `Cfg.base`: the three optional indexes off; 
 The full statement
 
     ∀ cfg cfg' chain st st' evs evs', SameUpToOptionalIndexes cfg cfg' →
-      runSeen cfg chain = .ok (st, evs) → runSeen cfg' chain = .ok (st', evs') →
+      runSeen false cfg chain = .ok (st, evs) → runSeen false cfg' chain = .ok (st', evs') →
       projInsRunes st = projInsRunes st'
+
+(`runSeen false` = the unchanged `Index::open`; `runSeen true` = with the repair of the second
+finding, notes/fix-C15-runes-first-index-height.diff — which of the two the source has is
+re-extracted on every run into `Generated.runesLowerFirstIndexHeight`)
 
 is FALSE of the code, in two ways, both only on chains whose first inscription height is not 0
 (mainnet, signet, testnet3; it is hard-coded per chain), both replayed on the real indexer on
@@ -33,6 +39,10 @@ signet (`harness/flagsx`, corpus/C15/signet.s1.txt and signet.s2.txt):
 * `c15_fails_runes_below_first_index_height` — where runes activate below the first inscription
   height (signet: 0 < 112402) an index without sat and address index never sees the
   transactions of the blocks in between, so runes etched there exist only with those indexes.
+  This one is about the UNCHANGED `first_index_height` rule.  With the repair the rune half of the
+  statement is a theorem for every chain and every activation heights: `c15_fixed_runes_seen`
+  (stages `c15_fixed_first_index_height_le_first_rune_height`, `c15_fixed_sees_every_rune_block`,
+  `c15_runes_untouched_below_first_rune_height`, `c15_runes_depend_on_rune_blocks_only`).
 
 What is proved (no bound on chains, blocks, transactions, values):
 `c15_partial` — for a first inscription height of 0 (regtest, testnet4) and inscriptions indexed
@@ -175,17 +185,19 @@ theorem c15_nullStable_decidable (cfg : Cfg) (chain : List Block) (st : State)
 
 /-- With first inscription height 0 and inscriptions indexed, every configuration sees the whole
 chain (`first_index_height = 0`), so `c15_partial` is also a statement about `runSeen`. -/
-theorem c15_seen_is_run (cfg : Cfg) (hi : cfg.indexInscriptions = true) (hf : cfg.firstInscriptionHeight = 0)
-    (chain : List Block) : runSeen cfg chain = run cfg chain := by
+theorem c15_seen_is_run (fixed : Bool) (cfg : Cfg) (hi : cfg.indexInscriptions = true) (hf : cfg.firstInscriptionHeight = 0)
+    (chain : List Block) : runSeen fixed cfg chain = run cfg chain := by
   unfold runSeen
   congr 1
-  have : ∀ b : Block, fetchView cfg b = b := by
+  have : ∀ b : Block, fetchView fixed cfg b = b := by
     intro b
     unfold fetchView Cfg.firstIndexHeight
     by_cases h1 : (cfg.indexSats || cfg.indexAddresses) = true
     · simp [h1]
-    · simp [h1, hi, hf]
-  have hid : fetchView cfg = id := funext this
+    · by_cases h2 : (fixed && cfg.indexRunes) = true
+      · simp [h1, hi, hf, h2]
+      · simp [h1, hi, hf, h2]
+  have hid : fetchView fixed cfg = id := funext this
   rw [hid, List.map_id]
 
 /-! ## `NullStableFrom` discharged: the statement without side hypothesis
@@ -241,14 +253,14 @@ theorem c15_valid_chain (cfg cfg' : Cfg) (hsame : SameUpToOptionalIndexes cfg cf
 /-- … and the same about what each configuration *sees* of the chain (`runSeen`: below
 `first_index_height` only headers): with inscriptions indexed from height 0 every
 configuration sees every block. -/
-theorem c15_valid_chain_seen (cfg cfg' : Cfg) (hsame : SameUpToOptionalIndexes cfg cfg')
+theorem c15_valid_chain_seen (fixed : Bool) (cfg cfg' : Cfg) (hsame : SameUpToOptionalIndexes cfg cfg')
     (hi : cfg.indexInscriptions = true) (hf : cfg.firstInscriptionHeight = 0)
     (chain : List Block) (hv : Valid.validChain chain = true)
     (st st' : State) (evs evs' : List Event)
-    (h : runSeen cfg chain = .ok (st, evs)) (h' : runSeen cfg' chain = .ok (st', evs')) :
+    (h : runSeen fixed cfg chain = .ok (st, evs)) (h' : runSeen fixed cfg' chain = .ok (st', evs')) :
     projInsRunes st = projInsRunes st' := by
-  rw [c15_seen_is_run cfg hi hf] at h
-  rw [c15_seen_is_run cfg' (hsame.1 ▸ hi) (hsame.2.2.1 ▸ hf)] at h'
+  rw [c15_seen_is_run fixed cfg hi hf] at h
+  rw [c15_seen_is_run fixed cfg' (hsame.1 ▸ hi) (hsame.2.2.1 ▸ hf)] at h'
   exact c15_valid_chain cfg cfg' hsame hf chain hv st st' evs evs' h h'
 
 /-! ## The two counterexamples -/
@@ -284,22 +296,24 @@ theorem c15_fails_nonzero_first_inscription_height :
   rw [heq, e2] at e1
   exact absurd e1 (by decide)
 
-theorem w2_with_sats : (stateAfter' (runSeen (w2Cfg true false) w2Chain)).map (fun st => (projInsRunes st).rune2id) =
+theorem w2_with_sats : (stateAfter' (runSeen false (w2Cfg true false) w2Chain)).map (fun st => (projInsRunes st).rune2id) =
     some [(6402364363415443603228541264231179223, ⟨1, 1⟩)] := by decide
 
-theorem w2_with_addresses : (stateAfter' (runSeen (w2Cfg false true) w2Chain)).map (fun st => (projInsRunes st).rune2id) =
+theorem w2_with_addresses : (stateAfter' (runSeen false (w2Cfg false true) w2Chain)).map (fun st => (projInsRunes st).rune2id) =
     some [(6402364363415443603228541264231179223, ⟨1, 1⟩)] := by decide
 
-theorem w2_without : (stateAfter' (runSeen (w2Cfg false false) w2Chain)).map (fun st => (projInsRunes st).rune2id) =
+theorem w2_without : (stateAfter' (runSeen false (w2Cfg false false) w2Chain)).map (fun st => (projInsRunes st).rune2id) =
     some [] := by decide
 
-/-- **C15 fails where runes activate below the first inscription height** (signet).  The
-configuration without sat and address index fetches only the header of block 1
-(`fetchView`), so the reserved rune etched there exists only with the sat or address index. -/
+/-- **C15 fails where runes activate below the first inscription height** (signet), with the
+UNCHANGED `first_index_height` rule (`runSeen false`).  The configuration without sat and address
+index fetches only the header of block 1 (`fetchView`), so the reserved rune etched there exists
+only with the sat or address index.  (With the repair: `c15_fixed_runes_seen`,
+`c15_fixed_witness`.) -/
 theorem c15_fails_runes_below_first_index_height :
     SameUpToOptionalIndexes (w2Cfg true false) (w2Cfg false false) ∧ Valid.validChain w2Chain = true ∧
-    ∃ st st' evs evs', runSeen (w2Cfg true false) w2Chain = .ok (st, evs) ∧
-      runSeen (w2Cfg false false) w2Chain = .ok (st', evs') ∧
+    ∃ st st' evs evs', runSeen false (w2Cfg true false) w2Chain = .ok (st, evs) ∧
+      runSeen false (w2Cfg false false) w2Chain = .ok (st', evs') ∧
       (projInsRunes st).rune2id = [(6402364363415443603228541264231179223, ⟨1, 1⟩)] ∧
       (projInsRunes st').rune2id = [] ∧ projInsRunes st ≠ projInsRunes st' := by
   refine ⟨⟨rfl, rfl, rfl, rfl, rfl⟩, by decide, ?_⟩
@@ -309,6 +323,157 @@ theorem c15_fails_runes_below_first_index_height :
   intro heq
   rw [heq, e2] at e1
   exact absurd e1 (by decide)
+
+/-! ## The repaired `first_index_height` (second finding fixed: `runSeen true`)
+
+notes/fix-C15-runes-first-index-height.diff: with inscriptions and runes indexed (no sat, no
+address index) `first_index_height = min first_inscription_height first_rune_height`.  Then the
+rune half of C15 — "all rune entries and balances are identical whether or not the sat, address
+and transaction indexes are enabled" — holds for every chain, every activation heights, as a
+statement about what each configuration *sees* (`runSeen true`).  `projRunes`: rune entries
+(number, mints, burned, premine, terms, …), name → id, balances, etching txid → name, the
+counters `Runes` and `ReservedRunes`; not SEQUENCE_NUMBER_TO_RUNE_ID (keyed by inscription
+sequence numbers).  The inscription half for a non-zero first inscription height stays false
+(`c15_fails_nonzero_first_inscription_height`, not repaired). -/
+
+/-- With the repair no block in which runes are active is delivered header-only: every
+configuration that indexes runes has `first_index_height ≤ first_rune_height`. -/
+theorem c15_fixed_first_index_height_le_first_rune_height (cfg : Cfg) (hr : cfg.indexRunes = true) :
+    ∃ h, cfg.firstIndexHeight true = some h ∧ h ≤ cfg.firstRuneHeight := by
+  unfold Cfg.firstIndexHeight
+  by_cases h1 : (cfg.indexSats || cfg.indexAddresses) = true
+  · exact ⟨0, by simp [h1], Nat.zero_le _⟩
+  · by_cases h2 : cfg.indexInscriptions = true
+    · exact ⟨min cfg.firstInscriptionHeight cfg.firstRuneHeight, by simp [h1, h2, hr], Nat.min_le_right _ _⟩
+    · exact ⟨cfg.firstRuneHeight, by simp [h1, h2, hr], Nat.le_refl _⟩
+
+/-- … so such a configuration sees every block at or above the first rune height in full. -/
+theorem c15_fixed_sees_every_rune_block (cfg : Cfg) (hr : cfg.indexRunes = true) (blk : Block)
+    (hh : blk.height ≥ cfg.firstRuneHeight) : fetchView true cfg blk = blk := by
+  obtain ⟨h, e, le⟩ := c15_fixed_first_index_height_le_first_rune_height cfg hr
+  unfold fetchView
+  rw [e]
+  exact if_pos (Nat.le_trans le hh)
+
+/-- Blocks below the first rune height cannot change the rune results, whatever the optional
+indexes do with them (the rune updater is not run there; the sat / address / inscription pass
+writes no rune table) — so it does not matter whether such a block arrives in full or header-only. -/
+theorem c15_runes_untouched_below_first_rune_height (cfg : Cfg) (st : State) (blk : Block) (st' : State)
+    (evs : List Event) (h : applyBlock cfg st blk = .ok (st', evs)) (hlt : blk.height < cfg.firstRuneHeight) :
+    projRunes st' = projRunes st := by
+  obtain ⟨evr, hs⟩ := applyBlock_runeW cfg st blk st' evs h
+  have hn : runeRelevant cfg blk = false := by
+    unfold runeRelevant
+    have : ¬ blk.height ≥ cfg.firstRuneHeight := Nat.not_le.mpr hlt
+    simp [this]
+  unfold runeStep at hs
+  rw [hn] at hs
+  simp only [Bool.false_eq_true, if_false, Outcome.ok.injEq, Prod.mk.injEq] at hs
+  exact (projRunes_of_runeW hs.1).symm
+
+/-- **The rune results depend only on the blocks the rune updater runs on.**  Two configurations
+that differ at most in the sat / address / transaction indexes — and, here, even in whether
+inscriptions are indexed and from which height — index two block lists that coincide on the
+blocks at or above the first rune height (below it the lists may differ in any way: blocks in
+full, header-only, missing): the rune entries, ids, balances and counters are equal.  No
+validity hypothesis, no condition on the first inscription height. -/
+theorem c15_runes_depend_on_rune_blocks_only (cfg cfg' : Cfg) (hr : cfg.indexRunes = cfg'.indexRunes)
+    (hf : cfg.firstRuneHeight = cfg'.firstRuneHeight) (chain chain' : List Block)
+    (hrel : chain.filter (runeRelevant cfg) = chain'.filter (runeRelevant cfg))
+    (st st' : State) (evs evs' : List Event)
+    (h : run cfg chain = .ok (st, evs)) (h' : run cfg' chain' = .ok (st', evs')) :
+    projRunes st = projRunes st' :=
+  projRunes_of_runeW (run_runeW_eq cfg cfg' hr hf chain chain' hrel st st' evs evs' h h')
+
+/-- what a configuration sees, under either `first_index_height` rule, contains every
+rune-relevant block as soon as `first_index_height ≤ first_rune_height` -/
+theorem c15_seen_keeps_rune_blocks (fixed : Bool) (cfg : Cfg) (hle : cfg.indexRunes = true →
+      ∃ h, cfg.firstIndexHeight fixed = some h ∧ h ≤ cfg.firstRuneHeight) (chain : List Block) :
+    (chain.map (fetchView fixed cfg)).filter (runeRelevant cfg) = chain.filter (runeRelevant cfg) := by
+  apply filter_map_view
+  · intro b
+    exact runeRelevant_fetchView fixed cfg cfg b
+  · intro b hb
+    unfold runeRelevant at hb
+    simp only [Bool.and_eq_true, decide_eq_true_eq] at hb
+    obtain ⟨h, e, le⟩ := hle hb.1
+    unfold fetchView
+    rw [e]
+    exact if_pos (Nat.le_trans le hb.2)
+
+/-- **C15, rune half, for the repaired code** (finding S2 fixed): two configurations that differ
+only in the sat / address / transaction indexes and both index the chain — each as it *sees* it
+under the repaired `first_index_height` (`runSeen true`: header-only below it) — end with the same
+rune entries (numbers included), rune ids, balances, etching txids and rune counters.  Every
+chain, every pair of activation heights (signet's 112402 / 0 included), inscriptions indexed or
+not; no validity hypothesis is needed. -/
+theorem c15_fixed_runes_seen (cfg cfg' : Cfg) (hsame : SameUpToOptionalIndexes cfg cfg')
+    (chain : List Block) (st st' : State) (evs evs' : List Event)
+    (h : runSeen true cfg chain = .ok (st, evs)) (h' : runSeen true cfg' chain = .ok (st', evs')) :
+    projRunes st = projRunes st' := by
+  unfold runSeen at h h'
+  refine c15_runes_depend_on_rune_blocks_only cfg cfg' hsame.2.1 hsame.2.2.2.2 _ _ ?_ st st' evs evs' h h'
+  rw [c15_seen_keeps_rune_blocks true cfg (c15_fixed_first_index_height_le_first_rune_height cfg)]
+  rw [runeRelevant_congr cfg cfg' hsame.2.1 hsame.2.2.2.2]
+  rw [c15_seen_keeps_rune_blocks true cfg' (c15_fixed_first_index_height_le_first_rune_height cfg')]
+
+/-- the same for whichever rule the source has, once the extractor reports the repair -/
+theorem c15_source_runes_seen (hfix : Generated.runesLowerFirstIndexHeight = true)
+    (cfg cfg' : Cfg) (hsame : SameUpToOptionalIndexes cfg cfg')
+    (chain : List Block) (st st' : State) (evs evs' : List Event)
+    (h : runSeen Generated.runesLowerFirstIndexHeight cfg chain = .ok (st, evs))
+    (h' : runSeen Generated.runesLowerFirstIndexHeight cfg' chain = .ok (st', evs')) :
+    projRunes st = projRunes st' := by
+  rw [hfix] at h h'
+  exact c15_fixed_runes_seen cfg cfg' hsame chain st st' evs evs' h h'
+
+/-- the unchanged rule already has `first_index_height ≤ first_rune_height` wherever inscriptions
+activate no later than runes (mainnet 767430 ≤ 840000, testnet3, testnet4, regtest): there the rune
+half holds for the unchanged code too — signet is the one built-in chain where it does not. -/
+theorem c15_runes_seen_unchanged_of_le (cfg cfg' : Cfg) (hsame : SameUpToOptionalIndexes cfg cfg')
+    (hle : cfg.firstInscriptionHeight ≤ cfg.firstRuneHeight)
+    (chain : List Block) (st st' : State) (evs evs' : List Event)
+    (h : runSeen false cfg chain = .ok (st, evs)) (h' : runSeen false cfg' chain = .ok (st', evs')) :
+    projRunes st = projRunes st' := by
+  have key : ∀ c : Cfg, c.firstInscriptionHeight ≤ c.firstRuneHeight → c.indexRunes = true →
+      ∃ h, c.firstIndexHeight false = some h ∧ h ≤ c.firstRuneHeight := by
+    intro c hc hr
+    unfold Cfg.firstIndexHeight
+    by_cases h1 : (c.indexSats || c.indexAddresses) = true
+    · exact ⟨0, by simp [h1], Nat.zero_le _⟩
+    · by_cases h2 : c.indexInscriptions = true
+      · exact ⟨c.firstInscriptionHeight, by simp [h1, h2], hc⟩
+      · exact ⟨c.firstRuneHeight, by simp [h1, h2, hr], Nat.le_refl _⟩
+  have hle' : cfg'.firstInscriptionHeight ≤ cfg'.firstRuneHeight := by
+    rw [← hsame.2.2.1, ← hsame.2.2.2.2]; exact hle
+  unfold runSeen at h h'
+  refine c15_runes_depend_on_rune_blocks_only cfg cfg' hsame.2.1 hsame.2.2.2.2 _ _ ?_ st st' evs evs' h h'
+  rw [c15_seen_keeps_rune_blocks false cfg (key cfg hle)]
+  rw [runeRelevant_congr cfg cfg' hsame.2.1 hsame.2.2.2.2]
+  rw [c15_seen_keeps_rune_blocks false cfg' (key cfg' hle')]
+
+theorem w2_fixed_without : (stateAfter' (runSeen true (w2Cfg false false) w2Chain)).map (fun st => (projInsRunes st).rune2id) =
+    some [(6402364363415443603228541264231179223, ⟨1, 1⟩)] := by decide
+
+theorem w2_fixed_with_sats : (stateAfter' (runSeen true (w2Cfg true false) w2Chain)).map (fun st => (projInsRunes st).rune2id) =
+    some [(6402364363415443603228541264231179223, ⟨1, 1⟩)] := by decide
+
+/-- the witness of `c15_fails_runes_below_first_index_height`, read with the repaired rule: the
+configuration without sat and address index now fetches block 1 in full
+(`first_index_height = min 2 0 = 0`), both runs succeed, and the reserved rune etched there exists
+in both — `c15_fixed_runes_seen` applies non-vacuously to the very chain that refutes the
+unchanged rule. -/
+theorem c15_fixed_witness :
+    (w2Cfg false false).firstIndexHeight false = some 2 ∧ (w2Cfg false false).firstIndexHeight true = some 0 ∧
+    ∃ st st' evs evs', runSeen true (w2Cfg true false) w2Chain = .ok (st, evs) ∧
+      runSeen true (w2Cfg false false) w2Chain = .ok (st', evs') ∧
+      (projInsRunes st').rune2id = [(6402364363415443603228541264231179223, ⟨1, 1⟩)] ∧
+      projRunes st = projRunes st' := by
+  refine ⟨by decide, by decide, ?_⟩
+  obtain ⟨st, evs, h1, _⟩ := stateAfter'_some w2_fixed_with_sats
+  obtain ⟨st', evs', h2, e2⟩ := stateAfter'_some w2_fixed_without
+  exact ⟨st, st', evs, evs', h1, h2, e2,
+    c15_fixed_runes_seen _ _ ⟨rfl, rfl, rfl, rfl, rfl⟩ w2Chain st st' evs evs' h1 h2⟩
 
 /-! ## Non-vacuity -/
 
@@ -328,6 +493,19 @@ inscription created and lost): its hypotheses are validity and success of the tw
 example : SameUpToOptionalIndexes (w0Cfg true) (w0Cfg false) ∧ (w0Cfg true).firstInscriptionHeight = 0 ∧
     Valid.validChain w1Chain = true ∧ (run (w0Cfg true) w1Chain).isOk = true ∧ (run (w0Cfg false) w1Chain).isOk = true :=
   ⟨⟨rfl, rfl, rfl, rfl, rfl⟩, rfl, by decide, by decide, by decide⟩
+
+/-- `c15_fixed_first_index_height_le_first_rune_height` is false of the unchanged rule (signet-like
+heights), and `c15_runes_untouched_below_first_rune_height` / `c15_runes_seen_unchanged_of_le`
+have satisfiable hypotheses (mainnet-like heights; block 1 of the witness chain under them) -/
+example : (w2Cfg false false).indexRunes = true ∧ (w2Cfg false false).firstIndexHeight false = some 2 ∧
+    (w2Cfg false false).firstRuneHeight = 0 := ⟨rfl, by decide, rfl⟩
+def w3Cfg (sats : Bool) : Cfg := ⟨sats, false, false, true, true, 0, 0, 1⟩
+example : SameUpToOptionalIndexes (w3Cfg true) (w3Cfg false) ∧
+    (w3Cfg true).firstInscriptionHeight ≤ (w3Cfg true).firstRuneHeight ∧
+    (runSeen false (w3Cfg true) w2Chain).isOk = true ∧ (runSeen false (w3Cfg false) w2Chain).isOk = true ∧
+    (stateAfter' (runSeen false (w3Cfg false) w2Chain)).map (fun st => (projRunes st).runes) = some 1 ∧
+    (run (w3Cfg true) (w2Chain.take 1)).isOk = true ∧ (w2Chain[0]?.map (·.height)) = some 0 :=
+  ⟨⟨rfl, rfl, rfl, rfl, rfl⟩, by decide, by decide, by decide, by decide, by decide, by decide⟩
 
 example : (w1Chain.map BlockShape).all id = true := by decide
 example : (w1Cfg true).base = w1Cfg false := rfl
